@@ -16,4 +16,4 @@ EVIDENCE = {
 
 
 def cases(tier, seed):
-    return [Case(n, filtered(f, "C07:"), **kw) for n, f, kw in tr.all_cases()]
+    return [Case(n, filtered(f, "C07:"), **kw) for n, f, kw in tr.all_cases("C07")]
